@@ -164,6 +164,44 @@ theorem C09_retry_waits_holding_only_a_prefix_of_the_blocked_member (pol : Polic
   refine ⟨p, hp, ?_⟩
   simpa [toRaw, toRaw?, retryLock, hf] using hst
 
+-- @theorem C09_retry_completes_exactly_when_every_leaf_is_free : the two directions together, for ANY members (owned groups included): run alone against a quiescent table, the blocking acquisition of a retrying collection completes if and only if every one of its leaves is free for the requested hold — it never "completes" over a busy leaf, never spins, aborts or unwinds, and is never left waiting when everything is free; the completed table is the old one plus exactly its footprint
+theorem C09_retry_completes_exactly_when_every_leaf_is_free (pol : Policy) (t : Tid) (W : World) (f : Nat)
+    (hf : W.fuel = f + 2) (s : Shape) (m : Mode) (e : Env)
+    (hnd : (declLeaves (.retry s)).Nodup) (hq : Quiescent e) :
+    ((holdsOf (.retry s) m).all (freeFor e) = true ↔
+      solo pol t ((toRaw W (.retry s)).acq m) e = .done () (takeAll t (shapeFp W (.retry s) m) e)) ∧
+    ((holdsOf (.retry s) m).all (freeFor e) = false ↔
+      ∃ e', solo pol t ((toRaw W (.retry s)).acq m) e = .stuck e') := by
+  have hT := C09_retry_completes_once_the_holders_have_released pol t W f hf s m e hnd hq
+  have hF := C09_retry_waits_holding_only_a_prefix_of_the_blocked_member pol t W f hf s m e hnd hq
+  cases hb : (holdsOf (.retry s) m).all (freeFor e) with
+  | true =>
+    have h1 := hT hb
+    refine ⟨⟨fun _ => h1, fun _ => rfl⟩, ⟨fun h => (by cases h), ?_⟩⟩
+    rintro ⟨e', he'⟩; rw [h1] at he'; cases he'
+  | false =>
+    obtain ⟨p, _, pre, e', _, _, _, h4, _⟩ := hF hb
+    refine ⟨⟨fun h => (by cases h), ?_⟩, ⟨fun _ => ⟨e', h4⟩, fun _ => rfl⟩⟩
+    intro h; rw [h4] at h; cases h
+
+-- @theorem C09_blocking_and_try_agree_in_quiescent_states : the blocking acquisition of a retrying collection and its try variant decide the same question: run alone against the same quiescent table, try returns true if and only if the blocking call completes, and then both leave the SAME table (the old one plus exactly the footprint); when try returns false the table is untouched and the blocking call is the one that waits
+theorem C09_blocking_and_try_agree_in_quiescent_states (pol : Policy) (t : Tid) (W : World) (f : Nat)
+    (hf : W.fuel = f + 2) (s : Shape) (m : Mode) (e : Env) (hl : lockable (.retry s) = true)
+    (hnd : (declLeaves (.retry s)).Nodup) (hq : Quiescent e) :
+    (solo pol t ((toRaw W (.retry s)).try_ m) e = .done true (takeAll t (shapeFp W (.retry s) m) e) ∧
+      solo pol t ((toRaw W (.retry s)).acq m) e = .done () (takeAll t (shapeFp W (.retry s) m) e)) ∨
+    (solo pol t ((toRaw W (.retry s)).try_ m) e = .done false e ∧
+      ∃ e', solo pol t ((toRaw W (.retry s)).acq m) e = .stuck e') := by
+  have hx := C09_retry_completes_exactly_when_every_leaf_is_free pol t W f hf s m e hnd hq
+  have ht := C13_try_is_exact pol t W (.retry s) m e hl hnd hq
+  cases hb : (holdsOf (.retry s) m).all (freeFor e) with
+  | true =>
+    rw [hb] at ht
+    exact Or.inl ⟨by simpa using ht, hx.1.1 hb⟩
+  | false =>
+    rw [hb] at ht
+    exact Or.inr ⟨by simpa using ht, hx.2.1 hb⟩
+
 /-- non-vacuity: three leaves, the middle one write-held by thread 7; the hypotheses of both
 theorems are met by concrete tables -/
 example :
@@ -177,6 +215,9 @@ example :
   refine ⟨rfl, by decide, ?_, ?_, by decide, by decide⟩
   · intro x; by_cases hx : x = 2 <;> simp [busy, hx]
   · intro x; exact ⟨rfl, rfl⟩
+
+/-- non-vacuity of `hl` in `C09_blocking_and_try_agree_in_quiescent_states` for the same shape -/
+example : lockable (.retry (.seq [.rwlock 1, .boxed (.seq [.rwlock 2, .rwlock 3])])) = true := by decide
 
 /-! ### finding D17, reproduced on the model (the model mirrors the code here)
 
